@@ -603,3 +603,8 @@ CHECKS['C19']['note'] += ' Known finding F31 (recursion limit at about 130 neste
 CHECKS['C07']['note'] += ' Known finding F30 (named function expression declared in the enclosing scope).'
 CHECKS['C01']['note'] += ' Known finding F32 (get / set before in / instanceof).'
 CHECKS['C02']['note'] += ' Known finding F32m (get / set before in / instanceof).'
+
+for _k in ('C01', 'C02', 'C20'):
+    CHECKS[_k]['text'] += (" process_layouts (contracts/layouts.py): for buffers of 0..3 pending layout markers (4 in the thorough tier) and EVERY handler table (free choice per rule tuple) "
+                           "the handler calls are a contiguous, in-order, repetition-free cover of the buffer, every handler sees the true neighbour texts and the text of the previous fragment of the run, "
+                           "and exactly the handlers' fragments are yielded; which groups are merged is decided per production by the table obligations.")
